@@ -1,9 +1,15 @@
 #!/bin/bash
 # Final re-evaluation of every confirmed seed with the current harness: the seed's own property's check
 # plus every check that caught it before. usage: reeval_all.sh <seed root> [<seed root> ...]
+# Resumable: seeds whose eval.json is newer than $MARKER (default /tmp/reeval.marker) are skipped;
+# `touch /tmp/reeval.stop` ends the loop before the next seed (never in the middle of one).
+MARKER=${MARKER:-/tmp/reeval.marker}
+[ -f "$MARKER" ] || touch "$MARKER"
 for root in "$@"; do
   for sd in $root/C??/?; do
+    [ -f /tmp/reeval.stop ] && { echo "stop requested"; exit 0; }
     [ -f "$sd/confirm.json" ] || continue
+    [ "$sd/eval.json" -nt "$MARKER" ] && continue
     python3 - "$sd" <<'PY' > /tmp/reeval.props
 import json, sys, os
 sd = sys.argv[1]
